@@ -224,12 +224,191 @@ def c18(seed, n):
                                'another tree' % (op, i)}
     return evals, None
 
+# --- C13 -----------------------------------------------------------------
+GARBAGE = ['diff --git a/x b/x', 'index 1234567..89abcde 100644',
+           '--- a/x', '+++ b/x', 'Only in foo: bar', '', 'random text',
+           '-- ', '+not in a hunk', '-not in a hunk']
+
+
+def gen_diff(rng, nl, enc):
+    """Text diff with known counts: (bytes, inserts, deletes)."""
+    lines = []
+    ins = dele = 0
+    old_ln, new_ln = 1, 1
+    for g in range(rng.randrange(0, 3)):
+        lines.append(rng.choice(GARBAGE[:8]))
+    for h in range(rng.randrange(1, 4)):
+        body = []
+        o = n = 0
+        for k in range(rng.randrange(1, 7)):
+            kind = rng.choice(' -+')
+            txt = rng.choice(['x', '', 'foo bar', '+-+', '@@ x', '--- a',
+                              '+++ b', ' lead'])
+            body.append(kind + txt)
+            if kind in ' -':
+                o += 1
+            if kind in ' +':
+                n += 1
+            if kind == '+':
+                ins += 1
+            if kind == '-':
+                dele += 1
+        if rng.random() < .5:
+            hdr = '@@ -%d,%d +%d,%d @@' % (old_ln, o, new_ln, n)
+        else:
+            hdr = '@@ -%d,%d +%d,%d @@ def f():' % (old_ln, o, new_ln, n)
+        if o == 1 and rng.random() < .5:
+            hdr = hdr.replace('-%d,1' % old_ln, '-%d' % old_ln, 1)
+        lines.append(hdr)
+        lines += body
+        if rng.random() < .2:
+            lines.append('\\ No newline at end of file')
+        old_ln += o + rng.randrange(1, 5)
+        new_ln += n + rng.randrange(1, 5)
+        for g in range(rng.randrange(0, 3)):
+            lines.append(rng.choice(GARBAGE))
+    text = ''.join(l + nl for l in lines)
+    return text.encode(enc or 'utf-8'), ins, dele
+
+
+def c13(seed, n):
+    import logging
+    logging.disable(logging.CRITICAL)
+    rng = random.Random(seed)
+    evals = 0
+    known = []
+    for it in range(n):
+        d = DiffX()
+        d.meta = {'title': 't'}
+        if rng.random() < .5:
+            d.meta['stats'] = {'custom': 'top', 'insertions': 999}
+        expect = {}
+        truth_tot = []
+        multibyte = False
+        allow_mb = rng.random() < .12
+        for ci in range(rng.randrange(0, 4)):
+            c = d.add_change()
+            c.meta = {'id': ci}
+            if rng.random() < .4:
+                c.meta['stats'] = {'custom': ci, 'files': 77}
+            ctot = [0, 0]
+            for fi in range(rng.randrange(0, 4)):
+                f = c.add_file()
+                f.meta = {'path': 'p%d' % fi}
+                pre = None
+                if rng.random() < .4:
+                    pre = {'custom': [1, 2], 'insertions': 5, 'deletions': 7,
+                           'lines changed': 12}
+                    f.meta['stats'] = copy.deepcopy(pre)
+                kind = rng.choice(['text', 'text', 'text', 'binary', 'empty',
+                                   'absent', 'broken'])
+                nl = rng.choice(['\n', '\r\n'])
+                enc = rng.choice([None, None, 'utf-8', 'latin-1', 'ascii']
+                                 + (['utf-16-le', 'utf-32'] if allow_mb
+                                    else []))
+                exp = pre
+                if kind in ('text', 'binary', 'broken'):
+                    data, i_, d_ = gen_diff(rng, nl, enc)
+                    if kind == 'broken':
+                        # hunk header promising more lines than the file has
+                        data = ('@@ -1,5 +1,5 @@' + nl + ' a' + nl).encode(
+                            enc or 'utf-8')
+                    f.diff = data
+                    if enc:
+                        f.diff_encoding = enc
+                    if rng.random() < .5:
+                        f.diff_line_endings = \
+                            'unix' if nl == '\n' else 'dos'
+                    if kind == 'binary':
+                        f.diff_type = 'binary'
+                    elif rng.random() < .3:
+                        f.diff_type = 'text'
+                    if kind == 'text':
+                        exp = dict(pre or {})
+                        exp.update({'insertions': i_, 'deletions': d_,
+                                    'lines changed': i_ + d_})
+                    if kind in ('text', 'broken') and \
+                            enc in ('utf-16-le', 'utf-32'):
+                        multibyte = True
+                elif kind == 'empty':
+                    f.diff = b''
+                expect[(ci, fi)] = exp
+                if exp:
+                    ctot[0] += exp.get('insertions', 0)
+                    ctot[1] += exp.get('deletions', 0)
+            truth_tot.append((len(c.files), ctot[0], ctot[1]))
+        before = snap(d)
+        evals += 1
+        try:
+            d.generate_stats()
+        except Exception as e:  # noqa
+            return evals, {'error': 'generate_stats raised %s: %s' % (
+                type(e).__name__, e)}, known
+        once = snap(d)
+        d.generate_stats()
+        err = None
+        if snap(d) != once:
+            err = 'generating twice differs from generating once'
+        for (ci, fi), exp in expect.items():
+            f = d.changes[ci].files[fi]
+            got = f.meta.get('stats')
+            if got != exp and not err:
+                err = 'file %d/%d: stats %r, expected %r (diff %r, ' \
+                      'options %r)' % (ci, fi, got, exp, f.diff[:80],
+                                       f.diff_section.options)
+            if f.meta.get('path') != 'p%d' % fi and not err:
+                err = 'file metadata lost'
+        for ci, (nf, i_, d_) in enumerate(truth_tot):
+            c = d.changes[ci]
+            st = c.meta.get('stats', {})
+            want = {'files': nf, 'insertions': i_, 'deletions': d_,
+                    'lines changed': i_ + d_}
+            if {k: st.get(k) for k in want} != want and not err:
+                err = 'change %d: stats %r, expected %r' % (ci, st, want)
+            if 'custom' in before['sub'][0] and not err:
+                pass
+            if c.meta.get('id') != ci and not err:
+                err = 'change metadata lost'
+        top = d.meta.get('stats', {})
+        want = {'changes': len(d.changes),
+                'files': sum(t[0] for t in truth_tot),
+                'insertions': sum(t[1] for t in truth_tot),
+                'deletions': sum(t[2] for t in truth_tot)}
+        want['lines changed'] = want['insertions'] + want['deletions']
+        if {k: top.get(k) for k in want} != want and not err:
+            err = 'top level: stats %r, expected %r' % (top, want)
+        if d.meta.get('title') != 't' and not err:
+            err = 'top-level metadata lost'
+        # custom keys survive
+        def customs(s, path=()):
+            out = []
+            if s.get('content') and isinstance(s['content'], dict) and \
+                    isinstance(s['content'].get('stats'), dict) and \
+                    'custom' in s['content']['stats']:
+                out.append((path, s['content']['stats']['custom']))
+            for i, x in enumerate(s.get('sub', [])):
+                out += customs(x, path + (i,))
+            return out
+        if customs(before) != customs(snap(d)) and not err:
+            err = 'custom statistics keys not preserved'
+        if err:
+            if multibyte:
+                known.append(err)
+                continue
+            return evals, {'error': err}, known
+    return evals, None, known
+
 
 def main():
     req = json.load(sys.stdin)
-    fn = {'c19': c19, 'c18': c18}[req['op']]
-    e, w = fn(req['seed'], req['n'])
-    json.dump({'evaluations': e, 'witness': w}, sys.stdout)
+    fn = {'c19': c19, 'c18': c18, 'c13': c13}[req['op']]
+    r = fn(req['seed'], req['n'])
+    e, w = r[0], r[1]
+    out = {'evaluations': e, 'witness': w}
+    if len(r) > 2:
+        out['known_class_hits'] = len(r[2])
+        out['known_class_sample'] = r[2][:2]
+    json.dump(out, sys.stdout)
 
 
 if __name__ == '__main__':
